@@ -36,3 +36,14 @@ Theorem C06_index_invariants_blocks_chunked : forall c ops, vcfg c -> c_chunk c 
   Forall (C06_file c) (all_files (fold_left (model_step_blocks c) ops init_state)).
 Proof. exact reachable_files_C06_blocks. Qed.
 Print Assumptions C06_index_invariants_blocks_chunked.
+
+(* the file sequence number: along the files of a session in creation order (which Properties/C01.v
+   shows to be increasing file-time order: the ms_incr component of `refines`) the sequence numbers are
+   strictly increasing and never exceed the writer's counter -- every mode, every block layout, every
+   history of calls (accepted, rejected or refused) *)
+From DRF Require Import Proofs.WriterMono.
+
+Theorem C06_sequence_numbers_increase : forall c ops,
+  SeqInv (fold_left (fun st op => snd (write_blocks c st (fst op) (snd op))) ops init_state).
+Proof. exact sequence_numbers_history. Qed.
+Print Assumptions C06_sequence_numbers_increase.
